@@ -192,6 +192,33 @@ func genC09(g *G) {
 			g.Emit("cache", "0", "0", "4300", lru, "0", strings.Join(ops, " "), "")
 		}
 	}
+	// one Set evicts several entries; the callback of an earlier eviction touches (Get / replace / Del)
+	// the entry that is next in line, so the eviction order changes while the loop is running
+	for _, pre := range [][]string{{"61", "62", "63"}, {"61", "62", "63", "6464"}, {"62", "61", "6464", "63"}} {
+		var ops []string
+		for _, k := range pre {
+			ops = append(ops, "s"+k+":31")
+		}
+		ops = append(ops, "t", "s656565:3838383838383838", "t")
+		for _, k := range pre {
+			ops = append(ops, "g"+k)
+		}
+		ops = append(ops, "g656565", "t")
+		for inv := 0; inv < len(pre)-1; inv++ {
+			for tgt := inv + 1; tgt < len(pre); tgt++ {
+				for _, act := range []string{"g" + pre[tgt], "s" + pre[tgt] + ":31", "d" + pre[tgt], "g" + pre[tgt] + " t"} {
+					sc := make([]string, inv+1)
+					sc[inv] = act
+					for _, ms := range []string{"12", "13", "14"} {
+						g.Emit("cache", ms, "0", "0", "1", "1", strings.Join(ops, " "), strings.Join(sc, "|"))
+					}
+				}
+			}
+		}
+	}
+	// an unlimited cache (MaxSize 0) holding more than 2^32 bytes
+	g.Emit("cachebig", "1", "5", "30")
+	g.Emit("cachebig", "0", "5", "30")
 	// random histories with re-entrant scripted callbacks
 	for i := 0; i < g.N(30000, 600000); i++ {
 		ms := maxSizes[g.Rnd.IntN(len(maxSizes))]
@@ -215,15 +242,43 @@ func genC09(g *G) {
 	}
 }
 
+// cachebig: args = lru, number of entries, log2 of the value length.  Every entry holds the SAME
+// huge, never written slice (the cache keeps the caller's slice, so only address space is used);
+// with MaxSize = MaxCount = 0 ("unlimited") nothing is refused or evicted however large the sum is.
+func execCacheBig(args []string) string {
+	n, lg := Atoi(args[1]), Atoi(args[2])
+	if strconv.IntSize < 64 {
+		return "skipped-32-bit"
+	}
+	big := make([]byte, 1<<uint(lg))
+	evicted := 0
+	c := cache.New(cache.Config{EnableLRU: args[0] == "1", OnDelete: func(_, _ []byte) { evicted++ }})
+	var out []string
+	for i := 0; i < n; i++ {
+		out = append(out, "S"+b2s(c.Set([]byte("k"+I(i)), big)))
+	}
+	st := c.Stats()
+	out = append(out, "T"+I(st.Count)+","+strconv.FormatUint(uint64(st.Size), 10)+","+I(st.Hit)+","+I(st.Miss))
+	for i := 0; i < n; i++ {
+		v := c.Get([]byte("k" + I(i)))
+		out = append(out, "G"+I(len(v)))
+	}
+	out = append(out, "O"+I(evicted))
+	return strings.Join(out, " ")
+}
+
 func init() {
 	properties["C09"] = &Property{
 		Gen:  genC09,
-		Exec: map[string]Executor{"cache": execCache},
+		Exec: map[string]Executor{"cache": execCache, "cachebig": execCacheBig},
 		Nontrivial: func(fn string, args []string, obs string) bool {
 			// something was stored and later observed
 			return strings.Contains(obs, "S") && (strings.Contains(obs, "G") || strings.Contains(obs, "T"))
 		},
 		Class: func(fn string, args []string, obs string) string {
+			if fn == "cachebig" {
+				return fn
+			}
 			c := "lru" + args[3] + "/cb" + args[4]
 			if strings.Contains(obs, "O") {
 				c += "/evicted"
